@@ -684,6 +684,10 @@ func c09ArgsCompiled(c *Ctx, r *Report) {
 		if v == nil {
 			return true
 		}
+		// arguments are template text
+		if b, isB := v.Type().Underlying().(*types.Basic); !isB || b.Info()&types.IsString == 0 {
+			return true
+		}
 		// the loop that feeds a stage factory: its body appends to a []KeyBuilderStage
 		feeds := false
 		ast.Inspect(rs.Body, func(y ast.Node) bool {
